@@ -82,7 +82,7 @@ def c06(run):
     run.trace("history", Q(run, 40, 400), types=FR, seed_off=100, small=True)
     run.trace("history", Q(run, 6, 60), types=FR, seed_off=150)
     run.trace("big-frames", Q(run, 3, 12), types=FR, seed_off=200, chunk=30)
-    run.trace("encode-reuse", Q(run, 2, 20), seed_off=300)
+    run.trace("encode-reuse", Q(run, 4, 20), seed_off=300)
     return run.finish(RULE_WIRE + RULE_TRACE)
 
 
@@ -201,7 +201,8 @@ def c13(run):
     run.prim_model_replay()
     run.trace("prim-fixed", Q(run, 2, 100))
     run.trace("prim-fixed-sweep", 1, seed_off=100)
-    return run.finish(RULE_PRIMMODEL + RULE_PRIM + "Widths 0..5,10,16,200; pads 00,20,30,80,E9,FF and a random one; both sides; texts of length 0..N+2 over {pad,00,20,41,C3,A9,FF,30} and random bytes.")
+    run.trace("prim-fixed-counts", Q(run, 1, 2), seed_off=200, chunk=40)
+    return run.finish(RULE_PRIMMODEL + RULE_PRIM + "Widths 0..5,10,16,200; pads 00,20,30,80,E9,FF and a random one; both sides; texts of length 0..N+2 over {pad,00,20,41,C3,A9,FF,30} and random bytes; lists of widths 1,3,8,10,16 with counts 0..64, around every multiple of 128 up to 2048, the multiples of 100 up to 2000, 4096, 8192 (thorough: up to 65535), written over stale spare capacity.")
 
 
 def c14(run):
